@@ -596,7 +596,7 @@ Definition d_qs (it : bytes) : option qres :=
   match d_arg it with Some a => Some (parse_quoted_string a (lenN a)) | None => None end.
 Definition qs_text (q : option qres) : bytes := match q with Some (QOk t) => t | _ => [] end.
 
-Definition join2 (o it : bytes) : bytes := (match o with [] => [] | o' => o' ++ [44; 32] end) ++ it.
+Definition join2 (o it : bytes) : bytes := (match o with [] => [] | a :: l => (a :: l) ++ [44; 32] end) ++ it.
 
 Definition step_spec (st : cc) (it : bytes) : cc :=
   let ty := d_type it in
